@@ -871,7 +871,7 @@ def check_C06(ctx, unit):
     def sel_remove(cal):
         g = byd.get(cal.get("did"))
         return g is not None and g.get("access") in ("private", "protected") and g.name not in rec_names and (g.get("ret") or "") == "void" \
-            and len(g.params()) >= 2
+            and len(g.params()) >= 1
     remove_all = inline_variant(unit, f("remove"), sel_remove)
     check_mirror_fns(ctx, "M.rb-mirror", f("rotateLeft"), f("rotateRight"), MIRROR_RB, RB + "::rotateLeft ~ rotateRight")
     check_mirror_fns(ctx, "M.rb-mirror", f("insert_left"), f("insert_right"), MIRROR_RB, RB + "::insert_left ~ insert_right")
@@ -911,6 +911,10 @@ def check_C06(ctx, unit):
             hw = hook_write(n)
             if hw and hw[1] is not None:
                 x = std_unwrap(hw[1])
+                hops = 0
+                while x.kind == "UnaryOperator" and x.op in ("&", "*") and x.children and hops < 4:
+                    # a node handed to a helper by reference: `h(&node)` names the node that `h(node)` names for a pointer
+                    x, hops = std_unwrap(x.children[0]), hops + 1
                 v = hw[2].strip()
                 if x.kind == "DeclRefExpr" and x.d["d"] == pnode and (v.get("nullc") or v.kind == "CXXNullPtrLiteralExpr"):
                     return "reset." + hw[0]
@@ -929,6 +933,28 @@ def check_C06(ctx, unit):
         miss = [fl for fl in FIELDS if "reset." + fl not in s_]
         if miss:
             bad.append("a path leaves %s of the removed node set" % miss)
+    if bad and "replace_node" in fns and "remove_half_leaf" in fns:
+        # compositionally: every path of remove() itself hands the removed node, as first argument, to one of the two
+        # unlinking helpers, each of which is held to the rule below
+        r0 = f("remove")
+        rp = r0.params()[0]["d"]
+
+        def first_is_node(c):
+            if not c.args:
+                return False
+            x = std_unwrap(c.args[0])
+            hops = 0
+            while x.kind == "UnaryOperator" and x.op in ("&", "*") and x.children and hops < 4:
+                x, hops = std_unwrap(x.children[0]), hops + 1
+            return x.kind == "DeclRefExpr" and x.d.get("d") == rp
+
+        def tr_(n, st):
+            if n.is_call() and n.callee and n.callee["n"] in ("replace_node", "remove_half_leaf") and first_is_node(n):
+                return [True]
+            return [st]
+        _, ex_ = flow.run(r0, [False], tr_, None)
+        if ex_ and all(ex_):
+            bad = []
     ctx.inst("H.rb-reset", "%s::remove (with its helpers folded in)" % RB, not bad and len(ex) >= 3, g.loc,
              "; ".join(sorted(set(bad))) if bad else "all %d paths null the five link fields of the removed node" % len(ex), g)
     # sibling agreement: whichever way the node is unlinked (as a leaf / half leaf, or replaced by its predecessor), its
@@ -1428,6 +1454,8 @@ def check_C07(ctx, unit, thorough=False):
                 x0 = x.strip()
                 if x0.d.get("inlined") and len(x0.d.get("rets", [])) == 1:
                     return flow.sem_eval(g.node(x0.d["rets"][0]), val)
+                if x0.kind == "DeclRefExpr" and x0.get("local") and len(st) > 6 and x0.d["d"] in dict(st[6]):
+                    return dict(st[6])[x0.d["d"]]       # a flag that is assigned along the way (single-exit forms)
                 if x0.kind == "DeclRefExpr" and x0.get("local") and x0.get("dk") == "Var":
                     ini = RA.local_inits(g).get(x0.d["d"])
                     if ini is not None and not RA._reassigned(g, x0.d["d"]) and (ini.get("t") or ini.strip().get("t") or "") in ("bool", "_Bool"):
@@ -1435,8 +1463,34 @@ def check_C07(ctx, unit, thorough=False):
                 return None
             return val
 
-        def transfer(n, st):
-            vl, rl, vr, rr, cbc, rv = st
+        def transfer(n, st0):
+            env = st0[6]
+            st = st0[:6]
+            out = transfer_(n, st, env)
+            # flags: a reassigned local holds what its last assignment evaluated to in the state after that statement
+            tgt, rhs = None, None
+            if n.kind == "BinaryOperator" and n.op == "=" and std_unwrap(n.children[0]).kind == "DeclRefExpr" and std_unwrap(n.children[0]).get("local"):
+                tgt, rhs = std_unwrap(n.children[0]).d["d"], n.children[1]
+            elif n.kind == "DeclStmt":
+                for d_ in n.get("decls", []):
+                    if "init" in d_ and RA._reassigned(g, d_["d"]):
+                        tgt, rhs = d_["d"], g.node(d_["init"])
+            res = []
+            for o in out:
+                e2 = env
+                if tgt is not None:
+                    v_ = flow.sem_eval(rhs, mkval(tuple(o) + (env,)))
+                    m_ = dict(env)
+                    if v_ is None:
+                        m_.pop(tgt, None)
+                    else:
+                        m_[tgt] = int(v_)
+                    e2 = tuple(sorted(m_.items()))
+                res.append(tuple(o) + (e2,))
+            return res
+
+        def transfer_(n, st, env=()):
+            vl, rl, vr, rr, cbc, rv = st[:6]
             if n.id in side_of:
                 sd = side_of[n.id]
                 if sd == "L":
@@ -1452,7 +1506,7 @@ def check_C07(ctx, unit, thorough=False):
             if n.id == cb.id:
                 return [(vl, rl, vr, rr, True, rv)]
             if n.kind == "ReturnStmt" and n.child("val") is not None:
-                v = flow.sem_eval(n.child("val"), mkval(st))
+                v = flow.sem_eval(n.child("val"), mkval(tuple(st) + (env,)))
                 return [(vl, rl, vr, rr, cbc, v)]
             return [st]
 
@@ -1461,10 +1515,10 @@ def check_C07(ctx, unit, thorough=False):
             if v is None or bool(v) == truth:
                 return [st]
             return []
-        _, ex = flow.run(g, [(False, None, False, None, False, None)], transfer, refine, limit=200000)
+        _, ex = flow.run(g, [(False, None, False, None, False, None, ())], transfer, refine, limit=200000)
         ovl = spec(lo, hi, lb, ub)
         gd = bool(L) and lb <= m
-        for (vl, rl, vr, rr, cbc, rv) in ex:
+        for (vl, rl, vr, rr, cbc, rv, _env) in ex:
             where = "lo=%d hi=%d lb=%d ub=%d max(left)=%d left=%d right=%d" % (lo, hi, lb, ub, m, L, R)
             if cbc != ovl:
                 problems.add("callback %s although the node %s the query (%s)" % ("runs" if cbc else "does not run", "overlaps" if ovl else "misses", where))
@@ -1870,6 +1924,27 @@ def check_C08(ctx, unit):
                 have.add((hw[0], sr.expr(hw[1])))
         ok = need <= have
     ctx.inst("H.collapse-detach", PH + "::_collapse", ok, f.loc, "both pair members detached before _merge: %s" % ok, f)
+    # ... and so is whatever becomes the heap that the remaining pairs are merged into (the returned variable): the odd
+    # element left over, or the first pair taken back off the list -- _merge requires operands without a backlink
+    rv = [std_unwrap(r.child("val")) for r in f.return_nodes() if r.child("val") is not None]
+    rd = {x.d["d"] for x in rv if x.kind == "DeclRefExpr" and x.get("local")}
+    seeds, undet = [], []
+    for n in f.events():
+        if n.kind == "BinaryOperator" and n.op == "=" and std_unwrap(n.children[0]).kind == "DeclRefExpr" and std_unwrap(n.children[0]).d.get("d") in rd:
+            x = std_unwrap(n.children[1])
+            if x.kind == "DeclRefExpr" and x.get("local"):
+                seeds.append((n, x))
+    for n, x in seeds:
+        det = False
+        for y in f.events():
+            hw = hook_write(y)
+            if hw and hw[1] is not None and hw[0] == "backlink" and sr.expr(hw[2]) == "null" and sr.expr(hw[1]) == sr.expr(x) and f.dominates(y.id, n.id):
+                # (and the variable still names that element: not reassigned in between)
+                det = True
+        if not det:
+            undet.append("%s becomes the merged heap at %s with its backlink still set" % (sr.expr(x), n.loc.split("/")[-1]))
+    ctx.inst("H.collapse-detach", PH + "::_collapse: start of the final merge", not undet and bool(seeds), f.loc,
+             "; ".join(undet) if undet else "%d ways the final heap starts, each from an element whose backlink was cleared" % len(seeds), f)
     from .rules_link import check_read_after_clear
     ctx.rule("H.read-after-clear", "no hook link is read right after the same link of the same element was set to null "
              "(a link must be saved before it is cleared)", 3)
